@@ -45,7 +45,7 @@ type c47MsgCase struct {
 
 func genC47Msg(t *rapid.T) c47MsgCase {
 	e := getEnv()
-	if rapid.IntRange(0, 40).Draw(t, "known-demo") == 0 {
+	if rapid.IntRange(0, 60).Draw(t, "known-demo") == 37 {
 		return c47MsgCase{Type: "known-demo", Tape: []byte{byte(rapid.IntRange(0, len(c47Demos)-1).Draw(t, "demo"))}}
 	}
 	var u string
@@ -74,7 +74,12 @@ func genC47Msg(t *rapid.T) c47MsgCase {
 			tp[rapid.IntRange(0, n-1).Draw(t, "hpos")] = byte(rapid.IntRange(160, 255).Draw(t, "hval"))
 		}
 	default:
+		// rapid favours small byte values; spread them over the whole range so that hostile
+		// decisions (high values) are as common as well-formed ones
 		tp = rapid.SliceOfN(rapid.Byte(), 0, 400).Draw(t, "tape")
+		for i := range tp {
+			tp[i] = tp[i]*167 + 13
+		}
 	}
 	return c47MsgCase{Type: u, Tape: tp}
 }
@@ -709,7 +714,7 @@ func parserSeeds() map[string][][]byte {
 
 func genC47Parser(t *rapid.T) c47ParserCase {
 	c := c47ParserCase{Target: rapid.SampledFrom(parserTargetNames).Draw(t, "target"), N: vx.U64().Draw(t, "n")}
-	if rapid.IntRange(0, 60).Draw(t, "known-demo") == 0 {
+	if rapid.IntRange(0, 80).Draw(t, "known-demo") == 37 {
 		// deterministic re-demonstration of one recorded finding
 		return c47ParserCase{Target: "known-demo", N: uint64(rapid.IntRange(0, len(c47Demos)-1).Draw(t, "demo"))}
 	}
